@@ -5,6 +5,7 @@ package main
 
 import (
 	z "github.com/Oudwins/zog"
+	"github.com/Oudwins/zog/conf"
 	"github.com/Oudwins/zog/zhttp"
 
 	"encoding/json"
@@ -569,6 +570,129 @@ func prePtrProbe(sum *Summary) {
 			if got != tc.want || sawA != 1 || sawB != 1 {
 				sum.addViolation("C12", Mismatch{Case: "prePtrProbe: " + tc.name, Impl: fmt.Sprintf("%s (callbacks ran %d / %d times)", got, sawA, sawB), Model: tc.want + " (each callback once)",
 					What: "Preprocess in Validate on a pointer-typed field: the callback's result is what the wrapped schema validates and what the field holds afterwards"})
+			}
+		}()
+		sum.Evaluations++
+	}
+}
+
+// likeProbe (C12, C03): schemas over NAMED primitive types (StringSchema[Role], NumberSchema[Count], BoolSchema[Flag]),
+// built the way the repository's own *_custom_test.go files build them. A TestFunc is called with the VALUE of its
+// node — a Role, not a string —, built-in tests decide the same predicates, and the destination holds the named
+// type. Fixed scenarios for the generic instantiations the case language (which uses the unnamed types) never makes.
+type likeRole string
+type likeCount int64
+type likeFlag bool
+
+func likeProbe(sum *Summary) {
+	roleSchema := func() *z.StringSchema[likeRole] {
+		s := &z.StringSchema[likeRole]{}
+		z.WithCoercer(func(x any) (any, error) {
+			v, err := conf.DefaultCoercers.String(x)
+			if err != nil {
+				return nil, err
+			}
+			return likeRole(v.(string)), nil
+		})(s)
+		return s
+	}
+	countSchema := func() *z.NumberSchema[likeCount] {
+		s := &z.NumberSchema[likeCount]{}
+		z.WithCoercer(func(x any) (any, error) {
+			v, err := conf.DefaultCoercers.Int(x)
+			if err != nil {
+				return nil, err
+			}
+			return likeCount(v.(int)), nil
+		})(s)
+		return s
+	}
+	flagSchema := func() *z.BoolSchema[likeFlag] {
+		s := &z.BoolSchema[likeFlag]{}
+		z.WithCoercer(func(x any) (any, error) {
+			v, err := conf.DefaultCoercers.Bool(x)
+			if err != nil {
+				return nil, err
+			}
+			return likeFlag(v.(bool)), nil
+		})(s)
+		return s
+	}
+	var seen []string
+	see := func(want string) z.BoolTFunc {
+		return func(val any, ctx z.Ctx) bool {
+			seen = append(seen, fmt.Sprintf("%T=%v", val, val))
+			return fmt.Sprintf("%v", val) == want
+		}
+	}
+	type rec struct {
+		Role  likeRole
+		Count likeCount
+		Flag  likeFlag
+		Roles []likeRole
+		PRole *likeRole
+	}
+	schema := z.Struct(z.Schema{
+		"role":  roleSchema().Required().TestFunc(see("admin"), z.IssueCode("known_role")).OneOf([]likeRole{"admin", "guest"}).Min(3),
+		"count": countSchema().TestFunc(see("7"), z.IssueCode("seven")).GT(5).OneOf([]likeCount{7, 9}),
+		"flag":  flagSchema().TestFunc(see("true"), z.IssueCode("set")).True(),
+		"roles": z.Slice(roleSchema().TestFunc(see("admin"), z.IssueCode("known_role"))),
+		"pRole": z.Ptr(roleSchema().TestFunc(see("guest"), z.IssueCode("is_guest")).HasPrefix("gu")),
+	})
+	// (struct fields are visited in map order: the observations are compared as a sorted list)
+	wantSeen := "[likeCount=7 likeFlag=true likeRole=admin likeRole=admin likeRole=guest likeRole=root]"
+	canonSeen := func() string {
+		out := append([]string(nil), seen...)
+		for i := range out {
+			out[i] = out[i][strings.Index(out[i], ".")+1:]
+		}
+		sort.Strings(out)
+		return fmt.Sprint(out)
+	}
+	issuesOf := func(m z.ZogIssueMap) string {
+		var keys []string
+		for k := range m {
+			if k != "$first" {
+				keys = append(keys, k)
+			}
+		}
+		sort.Strings(keys)
+		var parts []string
+		for _, k := range keys {
+			var cs []string
+			for _, e := range m[k] {
+				cs = append(cs, e.Code)
+			}
+			parts = append(parts, k+":"+strings.Join(cs, ","))
+		}
+		return strings.Join(parts, " ")
+	}
+	guest := likeRole("guest")
+	for _, mode := range []string{"parse", "validate"} {
+		func() {
+			defer func() {
+				if r := recover(); r != nil {
+					for _, pid := range []string{"C12", "C06"} {
+						sum.addViolation(pid, Mismatch{Case: "likeProbe: " + mode, Impl: fmt.Sprint("panic: ", r), What: "a schema over a named primitive type panicked"})
+					}
+				}
+			}()
+			seen = nil
+			var d rec
+			var errs z.ZogIssueMap
+			if mode == "parse" {
+				errs = schema.Parse(map[string]any{"role": "admin", "count": "7", "flag": "true", "roles": []any{"admin", "root"}, "pRole": "guest"}, &d)
+			} else {
+				d = rec{Role: "admin", Count: 7, Flag: true, Roles: []likeRole{"admin", "root"}, PRole: &guest}
+				errs = schema.Validate(&d)
+			}
+			got := fmt.Sprintf("seen=%s issues=%s dest=%v/%v/%v/%v/%v", canonSeen(), issuesOf(errs), d.Role, d.Count, d.Flag, d.Roles, d.PRole != nil && *d.PRole == "guest")
+			want := "seen=" + wantSeen + " issues=roles[1]:known_role dest=admin/7/true/[admin root]/true"
+			if got != want {
+				for _, pid := range []string{"C12", "C03"} {
+					sum.addViolation(pid, Mismatch{Case: "likeProbe: " + mode, Impl: got, Model: want,
+						What: "schemas over named primitive types: every TestFunc is called with the value of its node (of the named type), built-in tests decide their predicates, the destination holds the values"})
+				}
 			}
 		}()
 		sum.Evaluations++
